@@ -44,7 +44,7 @@ def main():
             'engine': 'contracts',
             'level_claimed': {'category': 'proof', 'text': text, 'design_ref': 'DESIGN.md 6'},
             'level_note': note,
-            'technique': 'contract-based deductive verification: Verus requires/ensures/invariants spliced into functions extracted from /repo on every run' + ('; Kani loop-free full-domain harnesses for calendar code' if pid in KANI_PROPS else ''),
+            'technique': 'contract-based deductive verification: Verus requires/ensures/invariants spliced into functions extracted from /repo on every run' + ('; Kani loop-free full-domain harnesses for calendar code' if pid in KANI_PROPS else '') + ('; thorough tier: bounded Kani checks (labelled bounded) of the decimal rounding axiom on the real rust_decimal' if pid == 'C17' else ''),
         })
     claimed = set(claims)
     all_ids = ['C%02d' % i for i in range(1, 21)]
